@@ -195,9 +195,11 @@ class LangServer:
         self.root_path = path_from_uri(
             params.get("rootUri") or params.get("rootPath") or ""
         )
-        self.source_dirs.add(self.root_path)
-
         self._load_config_file()
+        # Search the root (recursively, see _add_source_dirs) only when no source
+        # directories were given, whether on the command line or in the file
+        if not self.source_dirs:
+            self.source_dirs.add(self.root_path)
         update_recursion_limit(self.recursion_limit)
         self._resolve_globs_in_paths()
         self._config_logger(request)
